@@ -253,6 +253,13 @@ func (x *Exec) chanRecv(s *State, p *PtrVal, et types.Type) (Value, *Term, bool)
 	}
 	c, id := x.chanOf(s, p)
 	z := x.zero(c.ET)
+	if c.Timer {
+		// waiting on a timer alone: time passes until it fires
+		n := *c
+		n.Len = tb.Int64(1)
+		c = &n
+		s.Heap[id] = c
+	}
 	if c.Cap > 0 {
 		empty := tb.Eq(c.Len, tb.Int64(0))
 		canRecv := tb.Or(tb.Not(empty), c.Closed)
@@ -294,7 +301,15 @@ func (x *Exec) chanRecv(s *State, p *PtrVal, et types.Type) (Value, *Term, bool)
 		return z, tb.False, true
 	}
 	if !c.Closed.IsFalse() {
-		x.fail("unbuffered channel with symbolic closed flag")
+		// closed on some of the merged paths only: the open part blocks, the closed part proceeds
+		bs := s.clone()
+		if x.constrain(bs, tb.Not(c.Closed)) {
+			x.block(bs, "recv", id)
+		}
+		if !x.constrain(s, c.Closed) {
+			return nil, nil, false
+		}
+		return z, tb.False, true
 	}
 	x.block(s, "recv", id)
 	return nil, nil, false
@@ -431,11 +446,24 @@ func (x *Exec) doSelect(s *State, f *Frame, in *ssa.Select) bool {
 	if !none.IsFalse() {
 		ns := s
 		if x.constrain(ns, none) {
-			if !in.Blocking {
+			timer := -1
+			for i, st := range in.States {
+				if st.Dir == types.RecvOnly && !x.ptrIsNil(chans[i]).IsTrue() {
+					if ch, _ := x.chanOf(ns, chans[i]); ch.Timer {
+						timer = i
+						break
+					}
+				}
+			}
+			switch {
+			case !in.Blocking:
 				x.set(f, in, mkResult(-1, tb.False, -1, nil))
 				f.PC++
 				x.push(ns)
-			} else {
+			case timer >= 0:
+				// nothing else can proceed: time passes and the timer fires
+				fire(ns, ns.top(), timer)
+			default:
 				x.block(ns, "select", 0)
 			}
 		}
